@@ -4,7 +4,7 @@ import numpy as np
 from pyvc.contract import contract
 from pyvc import sym
 from holopy.scattering.interface import calc_holo, calc_field
-from holopy.scattering.scatterer import Sphere
+from holopy.scattering.scatterer import Sphere, Spheres
 from holopy.scattering.theory import MieLens
 from holopy.scattering.theory.mielens import AberratedMieLens
 from holopy.core.metadata import detector_points, to_vector
@@ -58,6 +58,43 @@ def _shift(coords):
     body.__doc__ = ("shifting scatterer and detector by the same in-plane vector leaves the kernel's positions and the hologram "
                     "unchanged (theory asking for %s coordinates)" % coords)
     return body
+
+
+def _shift_cluster(coords):
+    def body(c):
+        lam, n_med, n, r = _optics(c)
+        cens = [[c.real("c%d_%s" % (i, ax), sample=((-1, 1) if ax != 'z' else (3, 9))) for ax in "xyz"] for i in range(2)]
+        r2 = c.real("r_second", pos=True, sample=(0.2, 1.0))
+        ax, ay = c.real("shift_x", sample=(-3, 3)), c.real("shift_y", sample=(-3, 3))
+        xs = [c.real("x0", sample=(-2, 2)), c.real("x1", sample=(-2, 2))]
+        ys = [c.real("y0", sample=(-2, 2)), c.real("y1", sample=(-2, 2))]
+        A = (lambda v: np.array(v, dtype=object if c.symbolic else float))
+        th = AbstractPointTheory(coordinates=coords)
+        kw = dict(medium_index=n_med, illum_wavelen=lam, illum_polarization=(1, 0), theory=th)
+        det0 = detector_points(x=A(xs), y=A(ys), z=A([0 * xs[0], 0 * xs[0]]))
+        det1 = detector_points(x=A([v + ax for v in xs]), y=A([v + ay for v in ys]), z=A([0 * xs[0], 0 * xs[0]]))
+        mk = (lambda dx, dy: Spheres([Sphere(n=n, r=r, center=[cens[0][0] + dx, cens[0][1] + dy, cens[0][2]]),
+                                      Sphere(n=n, r=r2, center=[cens[1][0] + dx, cens[1][1] + dy, cens[1][2]])], warn=False))
+        h0 = c.call(calc_holo, det0, mk(0, 0), **kw)
+        n0 = len(th.calls)
+        h1 = c.call(calc_holo, det1, mk(ax, ay), **kw)
+        c.ensures("one-kernel-call-per-member", n0 == 2 and len(th.calls) == 4)
+        for i in range(2):
+            c.ensures("kernel-positions-unchanged-for-every-member", c.eq(th.calls[2 + i]['pos'], th.calls[i]['pos']))
+        c.ensures("hologram-unchanged", c.eq(h1.values, h0.values))
+        # the same detector object used again: nothing of the first calculation may linger
+        h0_again = c.call(calc_holo, det0, mk(0, 0), **kw)
+        c.ensures("repeatable-on-the-same-detector", c.eq(h0_again.values, h0.values))
+    body.__doc__ = ("a cluster treated by superposition: shifting every member and the detector by the same in-plane vector leaves the "
+                    "positions each member's kernel sees, and the hologram, unchanged (theory asking for %s coordinates)" % coords)
+    return body
+
+
+for _cs in ("spherical", "cylindrical", "cartesian"):
+    contract("C05", "shift_cluster_" + _cs, [SI + "calc_holo", IF + "ImageFormation._transform_to_desired_coordinates",
+                                             IF + "ImageFormation._calculate_scattered_field_from_superposition"],
+             bounded="two spheres, two detector points", patches=[("holopy.scattering.scatterer.spherecluster", "Spheres.overlaps", property(lambda self: []))],
+             timeout_ms=60000)(_shift_cluster(_cs))
 
 
 for _cs in ("spherical", "cylindrical"):
@@ -216,3 +253,12 @@ def mielens_phase(c):
         ph = np.exp(1j * kz1)
     c.ensures("x-component", c.eq(E[0][0], -ph * (0.5 * (i0 + i2 * c.cos(2 * phi)))))
     c.ensures("y-component", c.eq(E[1][0], -ph * (0.5 * i2 * c.sin(2 * phi))))
+
+
+# the generic lens wrapper: what makes it covariant under rotation about the optical axis is that the wrapped theory's
+# scattering matrix is taken at the LAB-frame pupil nodes while the polarization enters only through (phi_node - polarization angle)
+# in the parallel / perpendicular integrands and the point's azimuth only through (phi_node - phi_point) in the prefactor.
+# These formulas are contracts/C08.py:lens_integrand_pointwise; they are checked under this property as well.
+from contracts.C08 import lens_integrand_pointwise as _lens_formulas          # noqa: E402
+contract("C05", "lens_integrand_formulas", [TH + "lens:Lens._integrand_prefactor", TH + "lens:Lens._integrand_prll", TH + "lens:Lens._integrand_perp"])(
+    _lens_formulas.fn if hasattr(_lens_formulas, 'fn') else _lens_formulas)
